@@ -569,6 +569,8 @@ def random_step(state, rng, kind=None, goal_pos=None):
         k = rng.choice([0, 0, 1, 1, 2, 3])
         facts = rng.sample(vis, min(k, len(vis)))
         try:
+            if SEARCH_HOOK is not None:
+                SEARCH_HOOK(state, goal_pos, facts)
             with time_limit(STEP_LIMIT):
                 res = state.search_method(id_str(goal_pos), [id_str(f) for f in facts])
         except Timeout:
@@ -640,6 +642,10 @@ def perturb(step, state, rng):
     return s
 
 
+SEARCH_HOOK = None        # C14 logs the searches the step generator makes (replay of history-dependent failures)
+CURRENT_RUNNER = None
+
+
 # ====================================================================== running a sequence
 class Runner:
     """Runs one edit sequence on one goal, judging every completed step."""
@@ -650,6 +656,8 @@ class Runner:
         self.recorder = recorder
         self.observer = observer           # called with (runner, state) on every reached state (C14)
         self.judge_states = judge_states
+        global CURRENT_RUNNER
+        CURRENT_RUNNER = self
         self.trail = []          # [{"step":…, "on_copy":bool, "adopt":bool, "outcome":…}]
         self.frozen = []         # earlier copies with their snapshots: must never change
         self.state = goal.init_state()
